@@ -206,6 +206,33 @@ def run(ctx):
                                 if m in ("RK45CKSolver", "RK4Solver") and dn == "float64" and dt0 == 0.1:
                                     fcases.append(dict(method=m, dtype=dn, rhs="osc", t0=t0, tf=tf, dt0=dt0, far_hist=[list(o) for o in h]))
         grid.pmap(far_case, fcases, ctx, section="far", horizon=90)
+    if not ctx.only or "answers" in ctx.only:
+        # E2 over environment answers: the integrator's answer "I took less than you asked" (what an adaptive method does after rejecting a trial step) is
+        # scripted onto every call of the run in turn (then onto every pair of calls), on y' = const, where any step is exact: whichever step is cut short -
+        # the first, one in the middle, the one clamped to the remaining distance - the run must still end at its target
+        base_cfgs = []
+        for m in ("RK4Solver", "EulerSolver", "ABAs5o6HSolver") + (() if ctx.quick else ("ImplicitMidpoint", "RK45CKSolver")):
+            for (t0, tf) in [(-2.0, -0.5), (-0.5, -2.0), (2.0, 0.5), (0.5, 2.0), (-1.0, 1.0), (1.0, -1.0)]:
+                for dt0 in (0.25, 0.75, 3.0):
+                    for dn in ("float64",) if ctx.quick else ("float64", "float32"):
+                        mid = 0.5 * (t0 + tf)
+                        for h in ([["int"]], [["intT", mid], ["int"]], [["int"], ["intT", t0]]):
+                            base_cfgs.append(dict(method=m, dtype=dn, rhs="const", t0=t0, tf=tf, dt0=dt0, far_hist=h))
+        ncalls = grid.pmap(count_calls, base_cfgs, ctx, section="answers", horizon=90, collect=True)
+        acases = []
+        for c, n in zip(base_cfgs, ncalls):
+            if not n:
+                continue
+            for mode in ("keep", "back"):
+                for frac in (0.5, 0.125):
+                    for k in range(n):
+                        acases.append(dict(c, method="SCRIPT:%s:%s:%d=%s" % (c["method"], mode, k, frac)))
+                if not ctx.quick or (c["dt0"] == 0.75 and len(c["far_hist"]) == 1):
+                    for k1 in range(n):
+                        for k2 in range(k1 + 1, min(n + 2, k1 + 4)):
+                            acases.append(dict(c, method="SCRIPT:%s:%s:%d=0.5,%d=0.25" % (c["method"], mode, k1, k2)))
+        ctx.extra["scripted_answer_runs"] = len(acases)
+        grid.pmap(far_case, acases, ctx, section="answers", horizon=90)
     if not ctx.only or "shape" in ctx.only:
         scases = []
         for m in ["EulerSolver", "RK4Solver", "RK45CKSolver", "DOPRI45", "ABAs5o6HSolver", "ImplicitMidpoint"] + ([] if ctx.quick else ["RadauIIA5", "RK8713MSolver", "BackwardEuler"]):
@@ -218,6 +245,14 @@ def run(ctx):
                             for dense in (False, True):
                                 scases.append(dict(method=m, shape=shape, span=span, dtype=dn, dt0=dt0, dense=dense))
         grid.pmap(shape_case, scases, ctx, section="shape", horizon=300)
+
+
+def count_calls(case):
+    """pass 0 of the scripted-answer enumeration: the number of integrator calls of the undisturbed run (which is itself judged)"""
+    c = dict(case, method="SCRIPT:%s:keep:" % case["method"])
+    r = far_case(c)
+    r.ret = lc.SCRIPT_LAST["state"]["n"]
+    return r
 
 
 def far_case(case):
